@@ -133,8 +133,44 @@ fn unicode_escape_len_ascii_fixed() {
         assert!(n == 6 || n == 10, "an escape is 6 or 10 bytes long");
         assert!(n <= s.len(), "the escape lies inside the input");
         assert!(s.as_bytes()[1] == b'u' || s.as_bytes()[1] == b'U', "escape marker");
+        assert!((s.as_bytes()[1] == b'u') == (n == 6), "\\u takes 4 digits, \\U takes 8");
+        let mut k = 2;
+        while k < n { assert!(s.as_bytes()[k].is_ascii_hexdigit(), "every position of an accepted escape is a hexadecimal digit"); k += 1; }
     }
     kani::cover!(sparql_unicode_escape_len(s).is_some(), "reachable: a valid escape");
+}
+
+// escapes whose digit window contains multi-byte characters or signs (thorough and quick: the function is small)
+const ESC_ALPHA: [char; 8] = ['0', 'F', 'a', '+', 'g', '\u{e9}', '\u{20ac}', '\u{1d11e}'];
+#[kani::proof]
+#[kani::unwind(12)]
+fn unicode_escape_len_alphabet() {
+    let mut buf = [0u8; 40];
+    buf[0] = b'\\';
+    buf[1] = if kani::any() { b'u' } else { b'U' };
+    let k: usize = kani::any();
+    kani::assume(k <= 8);
+    let mut len = 2usize;
+    let mut i = 0;
+    while i < 8 {
+        if i < k {
+            let c: usize = kani::any();
+            kani::assume(c < 8);
+            len += ESC_ALPHA[c].encode_utf8(&mut buf[len..]).len();
+        }
+        i += 1;
+    }
+    let s = unsafe { std::str::from_utf8_unchecked(&buf[..len]) };
+    let r = sparql_unicode_escape_len(s);
+    if let Some(n) = r {
+        assert!(n <= s.len() && (n == 6 || n == 10), "the escape lies inside the input");
+        let mut j = 2;
+        while j < n { assert!(s.as_bytes()[j].is_ascii_hexdigit(), "every position of an accepted escape is a hexadecimal digit"); j += 1; }
+    }
+    let accepted = r.is_some();
+    let rejected_long = !accepted && len > 10;
+    kani::cover!(accepted, "reachable: a valid escape");
+    kani::cover!(rejected_long, "reachable: a rejected window with multi-byte characters");
 }
 
 #[kani::proof]
